@@ -49,7 +49,8 @@ def signal(name: str) -> None:
 
 async def _gates(job_name: str, attempt: int, phase: str = "execute") -> None:
     """forced interleavings: `case.gates = [{job, attempt, phase?, signal?, wait?, timeout?}]` — at the start of the given execution of the
-    job (phase execute: its status is RUNNING; phase schedule: it has just been scheduled, FIREABLE) first raise `signal`, then hold the job until `wait` was raised (by another gate or by the failure-manager
+    job (phase execute: its status is RUNNING; phase schedule: it has just been scheduled, FIREABLE; phase completed: its outputs are in
+    the output ports, the k-th `notify_status(job, COMPLETED)` has not been delivered yet) first raise `signal`, then hold the job until `wait` was raised (by another gate or by the failure-manager
     tracer: `synced:<failed job>` = a recovery finished `_synchronize_workflows`); a wait that times out is logged, not an error"""
     for g in STATE.get("gates", []):
         if g["job"] == job_name and g["attempt"] == attempt and g.get("phase", "execute") == phase:
@@ -436,6 +437,17 @@ async def _run(case: dict) -> dict:
         STATE["replica_loc"] = next(iter((await conn2.get_available_locations()).values())).location
     if case.get("trace_fm"):
         _trace_failure_manager(context)
+    if any(g.get("phase") == "completed" for g in STATE.get("gates", [])):
+        # gate between "the job's outputs are in its output ports" and "the scheduler sees it COMPLETED" (ExecuteStep._run_job, finally)
+        orig_notify = context.scheduler.notify_status
+        done_n: dict = {}
+
+        async def notify_status(job_name, status):
+            if status == Status.COMPLETED:
+                done_n[job_name] = done_n.get(job_name, 0) + 1
+                await _gates(job_name, done_n[job_name], "completed")
+            return await orig_notify(job_name, status)
+        context.scheduler.notify_status = notify_status
     res: dict = {"outcome": None}
     try:
         connector = context.deployment_manager.get_connector(dep)
@@ -507,6 +519,30 @@ async def _run(case: dict) -> dict:
     return res
 
 
+def _run_loop(coro):
+    """like asyncio.run, but the final "cancel everything and wait" is bounded: after a hang some tasks of the engine do not end when
+    cancelled, and asyncio.run would wait for them forever (turning a detected hang into a worker time-out)"""
+    loop = asyncio.new_event_loop()
+    try:
+        asyncio.set_event_loop(loop)
+        return loop.run_until_complete(coro)
+    finally:
+        try:
+            left = [t for t in asyncio.all_tasks(loop) if not t.done()]
+            for t in left:
+                t.cancel()
+            if left:
+                loop.run_until_complete(asyncio.wait(left, timeout=5))
+            loop.run_until_complete(asyncio.wait_for(loop.shutdown_asyncgens(), 5))
+        except BaseException:  # noqa: BLE001
+            pass
+        asyncio.set_event_loop(None)
+        try:
+            loop.close()
+        except BaseException:  # noqa: BLE001
+            pass
+
+
 def run_case(case: dict) -> dict:
     """case = {shape: {...}, plan: [...], max_retries, manager, root, timeout}"""
     import streamflow.log_handler  # noqa: F401  (sets the level on import)
@@ -521,7 +557,7 @@ def run_case(case: dict) -> dict:
         if case.get("lseed") is not None:
             from sfv.rt.loop import run_controlled
             return run_controlled(lambda: _run(case), case["lseed"], timeout=case.get("timeout", 180) + 60)
-        return asyncio.run(_run(case))
+        return _run_loop(_run(case))
     finally:
         shutil.rmtree(root, ignore_errors=True)
 
